@@ -59,6 +59,9 @@ type world struct {
 	owner   int // goroutine id of whoever drains the queue
 	nCase   int
 	newest  timer.IdType // last id handed out by the current manager
+	h       *hx.T
+	curOp   string
+	cbInOp  int
 }
 
 func (w *world) now() int { return int(time.Since(w.base) / time.Millisecond) }
@@ -76,6 +79,26 @@ func (w *world) takeLog() ([]string, bool) {
 	w.log, w.offLoop = nil, false
 	return l, off
 }
+
+// runaway: callbacks keep firing without the bubble ever becoming quiescent (e.g. a
+// one-shot that re-arms itself with no delay on a run service): record and give up.
+func (w *world) runaway() {
+	w.mu.Lock()
+	w.cbInOp++
+	n := w.cbInOp
+	var head []string
+	if n > maxCbPerOp {
+		head = append(head, w.log[:40]...)
+	}
+	w.mu.Unlock()
+	if n > maxCbPerOp {
+		w.h.Emit(w.curOp, "runaway ev="+strings.Join(head, ";")+" q=0")
+		w.h.Close()
+		syscall.Exit(3)
+	}
+}
+
+const maxCbPerOp = 50000
 
 func showArgs(args []interface{}) string {
 	parts := make([]string, len(args))
@@ -106,6 +129,7 @@ func (w *world) create(rep bool, dur, k int, args []int) timer.IdType {
 			w.mu.Unlock()
 		}
 		w.addLog(fmt.Sprintf("cb:%d@%d:%s", uint64(self), w.now(), showArgs(got)))
+		w.runaway()
 		for _, a := range w.scripts[k] {
 			switch a.kind {
 			case "cs":
@@ -242,6 +266,9 @@ func (w *world) suffix(manual string) string {
 }
 
 func (w *world) exec(op string) string {
+	w.mu.Lock()
+	w.curOp, w.cbInOp = op, 0
+	w.mu.Unlock()
 	ws := hx.Words(op)
 	if len(ws) == 0 {
 		return "bad-op"
@@ -435,7 +462,7 @@ func (g *gen) randomOps(rs bool, n int) {
 		case x < 63:
 			g.h.Count("op.adv")
 			g.run(fmt.Sprintf("adv d=%d", g.h.Pick(0, 1, 1, 2, 3, 4, 5, 8, 13)))
-		case x < 64:
+		case x < 64 && r.Intn(4) == 0:
 			g.h.Count("op.stop")
 			g.run("stop")
 		default:
@@ -590,8 +617,33 @@ func TestRun(t *testing.T) {
 	h := hx.Open()
 	clean := false
 	synctest.Test(t, func(t *testing.T) {
-		w := &world{}
-		run := func(op string) { h.Emit(op, w.exec(op)) }
+		w := &world{h: h}
+		run := func(op string) {
+			obs := w.exec(op)
+			// what was reached (outcomes, not just inputs)
+			if strings.Contains(obs, "cb:") {
+				h.Count("reach.callback")
+				if w.rs {
+					h.Count("reach.callback-on-runservice-loop")
+				}
+			}
+			if strings.HasPrefix(obs, "pop=") && strings.Contains(obs, " ev= ") {
+				h.Count("reach.cancelled-object-skipped-by-Do")
+			}
+			if strings.Contains(obs, "panic:") {
+				h.Count("reach.panic-in-callback")
+			}
+			if strings.Contains(obs, "new:") {
+				h.Count("reach.timer-created-in-callback")
+			}
+			if strings.Contains(obs, "cx:") {
+				h.Count("reach.cancel-in-callback")
+			}
+			if strings.HasPrefix(op, "adv") && strings.Contains(obs, fmt.Sprintf("q=%d", qcap)) {
+				h.Count("reach.queue-full")
+			}
+			h.Emit(op, obs)
+		}
 		defer func() {
 			if !clean {
 				// something is wedged: keep what was recorded
